@@ -293,6 +293,7 @@ func c09Remux(c *fw.Ctx, k int) {
 	cfg := hls.MuxerConfig{OutPath: "/c09/", FragmentDurationMs: []int{500, 1000, 3000}[k%3], FragmentNum: 3, DeleteThreshold: 1, CleanupMode: 0}
 	rig := &c10Rig{c: c, fs: fs, cfg: cfg, name: fmt.Sprintf("cc%d", k), closed: map[string][]byte{}, hasVideo: vc != ""}
 	rig.dir = "/c09/" + rig.name
+	rig.keepGiven = true
 	fs.OnOp = func(op srv.FsOp, _ *srv.RecFs) {
 		if op.Op == "create" && strings.HasSuffix(op.Path, ".ts") {
 			rig.started = true
@@ -308,6 +309,14 @@ func c09Remux(c *fw.Ctx, k int) {
 	}
 	rig.remuxer.Dispose()
 	rig.muxer.Dispose()
+	// the memory handed to OnTsPackets belongs to the receiver: later frames must not overwrite it
+	for k := range rig.given {
+		if !bytes.Equal(rig.given[k], rig.givenCopy[k]) {
+			c.Violate("remux/output-overwritten", fmt.Sprintf("the TS packets handed over in callback %d of %d were changed afterwards (the remuxer reuses the memory it gave away) | spec=%+v", k, len(rig.given), sp), nil)
+			return
+		}
+	}
+	c.Count("remuxer_callbacks_retained", len(rig.given))
 	// the PAT/PMT the remuxer announced declares exactly the stream's codecs
 	{
 		d := ref.NewTsDemux()
